@@ -328,4 +328,56 @@ def run(ctx):
         ctx.ob("R6", "%s|ends with set_loss_detection_timer" % b.short, ok, b.where(),
                "every path from %s to return re-arms the timer (calls at %s): %s — without it ack-eliciting packets still in "
                "flight are neither declared lost nor probed" % ("the anchor call" if anchor_rx else "entry", st, ok))
+    # ---------------------------------------------------------------- R7
+    ctx.rule("R7", "a packet is declared lost only if it is still in flight and (sent before the time threshold or at least "
+                   "packet_threshold packets older than the largest acknowledged): the state write is reachable only through "
+                   "one of the two comparisons, and only packets filtered by `state == Inflight` are examined")
+    if dl:
+        cls = prog.with_closures(dl)
+        # (a) the filter that precedes the decision compares the state with Inflight
+        filt = False
+        for c in cls:
+            for i, t in c.calls():
+                if callee(t).endswith("packets::State as core::cmp::PartialEq>::eq") and c.local_ty(0) == "bool":
+                    for o in local_origins(c, t["args"][1]):
+                        if o[0] == "const" and o[1] and "promoted" in o[1]:
+                            pb = prog.bodies.get("%s::promoted[%d]" % (o[1]["promoted_of"], o[1]["promoted"]))
+                            if pb and any(rv[0] == "agg" and rv[1].get("variant") == "Inflight" for (_, _, _, rv, _) in pb.assigns()):
+                                filt = True
+        ctx.ob("R7", "%s|only in-flight packets are examined" % dl.short, filt, dl.where(),
+               "a filter closure compares SentPacket.state with State::Inflight: %s (an acknowledged packet is never declared lost)" % filt)
+        # (b) the write state := Retransmitted is guarded by the two threshold comparisons
+        for (b_, i, j, p_, rv, line) in field_writes(prog, "SentPacket", "state", bodies=cls):
+            guards = []
+            for sb in b_.live_blocks():
+                t = b_.term(sb)
+                if t["t"] != "switch" or not b_.dominates(sb, i) and not (i in b_.reachable_from(sb)):
+                    continue
+                pl = op_place(t["on"])
+                if not pl or len(pl) != 1:
+                    continue
+                for (bb, jj, rv2) in b_.defs_of(pl[0]):
+                    if jj == "term" and re.search(r"PartialOrd>?::lt$|cmp::PartialOrd::lt$", callee(rv2)):
+                        if any(place_has_field(q, "SentPacket", "time_sent") for q in deep_places(b_, rv2["args"][0], 3)):
+                            guards.append(("time", sb))
+                    elif jj != "term" and rv2[0] == "bin" and rv2[1] in ("Ge", "Gt"):
+                        guards.append(("count", sb))
+            kinds = set(k for k, _ in guards)
+            # without passing the true edge of one of the guards the write must be unreachable
+            seen = {0}
+            st = [0]
+            gsb = {sb for _, sb in guards}
+            while st:
+                x = st.pop()
+                for s2 in b_.succ(x):
+                    if x in gsb:
+                        tr, fa = switch_edges_on_local(b_, x)
+                        if s2 in tr:
+                            continue
+                    if s2 not in seen:
+                        seen.add(s2)
+                        st.append(s2)
+            ok = kinds == {"time", "count"} and i not in seen
+            ctx.ob("R7", "%s|declared lost only through the time or packet threshold" % b_.short, ok, b_.where(line),
+                   "guards found: %s; the write is unreachable unless one of them is true: %s" % (sorted(kinds), i not in seen))
     ctx.assume("Control trait objects are NewReno (the only workspace impl besides none); dyn calls matched by trait method name")
